@@ -985,7 +985,41 @@ class T:
             return first
         return key
 
+    def _elem_slice(self, key):
+        """Slicing of a NON-time dimension (batch resize): the fixed element position eps is taken among the kept
+        elements, so values are unchanged and only the element shape is updated.  Returns None when not applicable."""
+        from .interp import SymSeq, StarArg
+
+        if isinstance(key, tuple) and len(key) == 1 and isinstance(key[0], StarArg) and isinstance(key[0].seq, SymSeq):
+            over = {k: v for k, v in key[0].seq.over.items() if not _full_slice(v)}
+        elif isinstance(key, tuple) and all(isinstance(x, slice) for x in key):
+            over = {i: v for i, v in enumerate(key) if not _full_slice(v)}
+        elif isinstance(key, slice):
+            over = {0: key} if not _full_slice(key) else {}
+        else:
+            return None
+        tdim = 0 if (self.tlen is not None and self.taxis == "first") else None
+        if not over or any(k == tdim for k in over) or self.eshape is None:
+            return None
+        items = list(self.eshape.items)
+        off = 1 if tdim == 0 else 0
+        for k, sl in over.items():
+            i = k - off
+            if not (isinstance(k, int) and 0 <= i < len(items)) or isinstance(items[i], Star) or any(isinstance(x, Star) for x in items[: i + 1]):
+                return None
+            if sl.step is not None:
+                return None
+            n = num(items[i])
+            lo = _norm_bound(sl.start, n, 0)
+            hi = _norm_bound(sl.stop, n, None)
+            items[i] = wrap(z3.If(hi - lo > 0, hi - lo, z3.IntVal(0)))
+        r = T(self.f, self.dtype, self.tlen, self.taxis, Shape(tuple(items)), self.nan)
+        return r
+
     def __getitem__(self, key):
+        es = self._elem_slice(key)
+        if es is not None:
+            return es
         k = self._norm_key(key)
         if k is Ellipsis or _full_slice(k):
             return self
@@ -1274,10 +1308,69 @@ def logical_not(a):
     return a.logical_not()
 
 
+def _cat_elem(tensors, dim):
+    """cat along a non-time dimension: eps lies in exactly one of the parts (fresh selector booleans)."""
+    a = tensors[0]
+    off = 1 if (a.tlen is not None and a.taxis == "first") else 0
+    i = dim - off
+    if any(x.eshape is None for x in tensors) or i < 0:
+        return None
+    for x in tensors:
+        if x.tlen != a.tlen and not (x.tlen is not None and a.tlen is not None and _same_len(x.tlen, a.tlen)):
+            return None
+        its = x.eshape.items
+        if i >= len(its) or any(isinstance(y, Star) for y in its[: i + 1]):
+            return None
+    ex = cur()
+    total = num(tensors[0].eshape.items[i])
+    for x in tensors[1:]:
+        total = total + num(x.eshape.items[i])
+    rt = tensors[0].dtype
+    for x in tensors[1:]:
+        rt = promote(rt, x.dtype)
+    sels = [z3.Bool(ex.fresh_name("cat_part")) for _ in tensors[:-1]]
+    items = list(a.eshape.items)
+    items[i] = wrap(total)
+
+    def pick(vals):
+        r = vals[-1]
+        for j in range(len(vals) - 2, -1, -1):
+            r = z3.If(sels[j], vals[j], r)
+        return r
+
+    if a.tlen is None:
+        return T(pick([coerce(x.f, rt) for x in tensors]), rt, None, None, Shape(tuple(items)))
+    fs = [x.f for x in tensors]
+    return T(lambda t: pick([coerce(f(t), rt) for f in fs]), rt, a.tlen, a.taxis, Shape(tuple(items)))
+
+
+def _as_time_first(tensors):
+    """a constant tensor created with an explicit full shape (n, ...) next to time-first tensors has the same layout"""
+    ref = next((x for x in tensors if isinstance(x, T) and x.tlen is not None and x.taxis == "first" and x.eshape is not None), None)
+    if ref is None:
+        return tensors
+    conv = []
+    for x in tensors:
+        if isinstance(x, T) and x.tlen is None and x.eshape is not None and len(x.eshape.items) == len(ref.eshape.items) + 1 and not any(isinstance(i, Star) for i in x.eshape.items[:1]):
+            v = x.f
+            conv.append(T(lambda t, v=v: v, x.dtype, x.eshape.items[0], "first", Shape(x.eshape.items[1:])))
+        else:
+            conv.append(x)
+    return conv
+
+
 def cat(tensors, dim=0):
     tensors = list(tensors)
     if not tensors:
         raise Unsupported("cat of nothing")
+    tensors = _as_time_first(tensors)
+    if all(isinstance(x, T) for x in tensors) and isinstance(dim, int):
+        a = tensors[0]
+        tdim = 0 if (a.tlen is not None and a.taxis == "first") else None
+        if dim >= 0 and dim != tdim:
+            r = _cat_elem(tensors, dim)
+            if r is not None:
+                return r
     for x in tensors:
         if not isinstance(x, T) or x.tlen is None:
             raise Unsupported("cat of tensors without time axis")
